@@ -19,6 +19,11 @@ Runtime monitoring of the REAL simulators and kernels; the oracle is the algebra
     recorded as ``e2e_vs_before_after_*`` (informational; it equals the enforced ratio within a small
     factor for rough fields and is larger for smooth ones where increments cancel).
     Zone width 1 is not used here (finding F6, owned by C19/C13).
+    Workload diversity (added after the seeded-change campaign): in the quick tier every other configuration runs on the
+    tall (2-D, grid_size_y > grid_size_x) / permuted (3-D) pool shape; per shard 1-2 configurations build a SIBLING
+    simulator (same shape, precision and options, x_range x 2.5) in the same process, step it, and then step the FIRST
+    object again; face / flux / update kernels get their scalar arguments alternately as python float and as real_t, and
+    the face kernels see a tall, a wide and (3-D) a middle-axis-longest grid on the same generated kernel objects.
 (b) Cell level on the compiled sub-kernels taken from the kernel registry (identified by their access
     signature on ``field``: {-1,0,1,2} e_a = front face of axis a, {-2,-1,0,1} e_a = back face): each
     run ALONE on a zeroed flux array with inv_dx = 1;  front_out[i] == -back_out[i+1]  for every
@@ -93,6 +98,14 @@ REQUIRE = {
     "e2e_steps_width0": 3,
     "e2e_steps_width_ge2": 10,
     "delta_probes": 100,
+    # workload diversity added after the seeded-change campaign (shape orientation, sibling objects, scalar argument types)
+    "e2e_steps_tall_or_permuted_shape": 40,
+    "e2e_steps_sibling_same_shape_other_dx": 10,
+    "e2e_steps_first_object_after_sibling": 5,
+    "face_shapes_first_axis_longest": 4,
+    "face_shapes_last_axis_longest": 4,
+    "face_kernel_calls_scalar_python_float": 8,
+    "face_kernel_calls_scalar_real_t": 8,
     "kernel_sum_checks": 60,
     **{f"faces_{d}d_ax{a}_{p}": 100 for d in (2, 3) for a in range(d) for p in PATTERNS},
 }
@@ -221,7 +234,7 @@ def _e2e(sh, rec):
         # sibling objects: a SECOND simulator in the same process with the same grid shape, precision and options but another
         # x_range (dx), then the FIRST object once more (a module-level cache keyed without dx / overwritten by the sibling)
         variants = [(a, None) for a in alts]
-        if ci % 3 == 1 or (thorough and ci % 3 == 0):
+        if (ci % 3 == 1) if thorough else (ci == 1 if kind == "ns3d" else ci % 4 == 1):
             variants += [(alts[0], "sibling"), (alts[0], "again")]
         sim_first = None
         for alt, sib in variants:
